@@ -63,6 +63,7 @@ type c11Method struct {
 const (
 	c11GET  = 1
 	c11POST = 2
+	c11DEL  = 3 // no rule names it: a DELETE request is served by a '*'-kind binding or not at all
 )
 
 var c11Methods = []c11Method{
@@ -84,6 +85,13 @@ var c11Methods = []c11Method{
 	// verb-specific binding of its own): removing C2 must not take A1's route with it
 	{7, "SvcC", "C2", 7, &c11Rule{verb: "GET", tmpl: "/c11/bx/{id}", key: c11Key{13, c11GET, true}, add: []c11Rule{
 		{verb: "GET", tmpl: "/c11.SvcA/A1/below", key: c11Key{18, c11GET, true}}}}},
+	// a '*'-kind rule at the node where A1 holds its GET binding: whichever of SvcA / SvcD comes second is refused
+	// (addRule's duplicate check looks at every verb's binding of the node for a '*' rule, and at the '*' binding for
+	// every rule)
+	{8, "SvcD", "D1", 8, &c11Rule{verb: "*", tmpl: "/c11/aa/{id}", key: c11Key{11, 0, true}}},
+	// a '*'-kind rule and a GET rule of the same method at one node: both are stored, removal takes both
+	{9, "SvcD", "D2", 9, &c11Rule{verb: "*", tmpl: "/c11/dd/{id}", key: c11Key{20, 0, true}, add: []c11Rule{
+		{verb: "GET", tmpl: "/c11/dd/{id}", key: c11Key{20, c11GET, true}}}}},
 }
 
 // descriptor sets: id -> services (a service carries all its methods)
@@ -96,6 +104,7 @@ var c11Descs = map[int][]string{
 	6: {"SvcL"},         // local only
 	7: {"SvcA", "SvcB"}, // the same as 2, but every service in a file of its own (c11Split): one package, several files
 	8: {"SvcA"},         // the same as 1 in a later version of the schema: Req declares a new field before id (c11Reordered)
+	9: {"SvcD"},         // '*'-kind rules (not in the alphabet of the exhaustive histories: c11StarHistories)
 }
 
 // descriptor sets whose Req message is {tenant = 3; id = 1} (declaration order differs, numbers do not)
@@ -178,7 +187,30 @@ func c11Targets() []c11Target {
 				if r.verb == "POST" {
 					body = "{}"
 				}
+				if r.verb == "*" {
+					// a '*'-kind binding is probed with a verb no rule names and with POST
+					add(c11Key{r.key.node, c11DEL, true}, "DELETE", url, "", m.id)
+					add(c11Key{r.key.node, c11POST, true}, "POST", url, "{}", m.id)
+					continue
+				}
 				add(r.key, r.verb, url, body, m.id)
+			}
+		}
+	}
+	// a '*'-kind binding serves every verb of its node: the number of probes of those targets is budgeted for
+	// its method's backends too
+	for _, m := range c11Methods {
+		if m.rule == nil {
+			continue
+		}
+		for _, r := range append([]c11Rule{*m.rule}, m.rule.add...) {
+			if r.verb != "*" {
+				continue
+			}
+			for i := range ts {
+				if ts[i].node == r.key.node {
+					ts[i].declarers = append(ts[i].declarers, m.id)
+				}
 			}
 		}
 	}
@@ -668,6 +700,19 @@ func c11Run(o *out, input string) {
 	o.emit(input, strings.Join(obs, " "))
 }
 
+// histories around descriptor set 9 ('*'-kind rules): with every operation of the alphabet before, between and after
+func c11StarHistories(each func(ops []string, label string)) {
+	for _, a := range c11Alphabet {
+		each([]string{a, "R0.9", "D0"}, "star-rules")
+		each([]string{"R2.9", a, "D2"}, "star-rules")
+		each([]string{"R1.9", a, "R0.9"}, "star-rules")
+	}
+	for _, h := range [][]string{{"R0.9", "R1.1", "D0", "R1.1"}, {"R0.1", "R1.9", "D0", "R1.9", "D1"}, {"L0.1", "R0.9", "R1.9"}, {"R0.9", "R1.9", "D0", "D1", "R2.1"},
+		{"R0.5", "R1.9"}, {"R0.9", "R0.1", "R0.9"}, {"R1.9", "R2.2", "D1", "R2.2", "R1.9"}} {
+		each(h, "star-rules")
+	}
+}
+
 func c11Gen(o *out, r *rng, tier string) {
 	e := c11Setup()
 	maxLen, nRandom := 3, 200
@@ -721,6 +766,15 @@ func c11Gen(o *out, r *rng, tier string) {
 			ops[j] = c11Alphabet[r.intn(len(c11Alphabet))]
 		}
 		emit(ops, "random/len4-12")
+	}
+	c11StarHistories(emit)
+	ext := append(append([]string{}, c11Alphabet...), "R0.9", "R1.9", "R2.9")
+	for i := 0; i < nRandom/4; i++ {
+		ops := make([]string, 4+r.intn(7))
+		for j := range ops {
+			ops[j] = ext[r.intn(len(ext))]
+		}
+		emit(ops, "random/with-star-rules")
 	}
 }
 
